@@ -92,8 +92,14 @@ fn typed_labels_accepted_iff_legal_played_exactly_rejected_without_effect() {
             let other_side = if other.peek_en_passant_target().is_empty() {
                 chess::chess_move::algebraic_notation::enumerate_candidate_moves_with_algebraic_notation(&mut other, turn.opposite(), &mut MoveGenerator::new())
             } else { Vec::new() };
+            // ... and labels of this position with the case of their first letter flipped (`nf3`, `E4`, `Bxc3` for `bxc3`)
+            let flipped: Vec<String> = labels.iter().map(|l| {
+                let mut cs: Vec<char> = l.chars().collect();
+                cs[0] = if cs[0].is_ascii_uppercase() { cs[0].to_ascii_lowercase() } else { cs[0].to_ascii_uppercase() };
+                cs.into_iter().collect::<String>()
+            }).filter(|l| !labels.contains(l)).take(8).collect();
             let near: Vec<String> = other_side.iter().map(|(_, l)| l.clone()).chain(previous_labels.iter().cloned())
-                .filter(|l| !labels.contains(l)).take(12).collect();
+                .filter(|l| !labels.contains(l)).take(12).chain(flipped.into_iter()).collect();
             for bad in near {
                 let before = snapshot(game.board());
                 let hist = game.last_move().map(|m| m.to_uci());
